@@ -305,6 +305,12 @@ class Recorder:
             for o in objs:
                 try:
                     o.fullName()
+                    # what the pages are made from, asked early: the linker of the object, its page, its address, its privacy
+                    o.docstring_linker
+                    o.page_object
+                    o.url
+                    o.module
+                    o.privacyClass
                     if isinstance(o, (model.Module, model.Class)):
                         for q in names + dotted:
                             o.expandName(q)
